@@ -106,6 +106,18 @@ type TraceEnt struct {
 
 var current atomic.Pointer[Sim]
 
+var (
+	resetMu  sync.Mutex
+	resetFns []func()
+)
+
+// RegisterReset registers a function that restores process-global state (e.g. vsync pools) at the start of every simulation.
+func RegisterReset(f func()) {
+	resetMu.Lock()
+	resetFns = append(resetFns, f)
+	resetMu.Unlock()
+}
+
 // Current returns the running simulation or nil.
 func Current() *Sim { return current.Load() }
 
@@ -198,6 +210,12 @@ func Run(cfg Config, tape *Tape, root func(s *Sim)) *Sim {
 	s.strat = &defaultStrategy{}
 	if !current.CompareAndSwap(nil, s) {
 		panic("simrt: nested simulation")
+	}
+	resetMu.Lock()
+	fns := append([]func(){}, resetFns...)
+	resetMu.Unlock()
+	for _, f := range fns {
+		f()
 	}
 	defer current.Store(nil)
 
